@@ -46,7 +46,7 @@ class Gen(object):
             if rnd.random() < 0.6:
                 init.append(self.probe())
         blocks = [self.block_items(2) for _ in range(rnd.randint(0, 3))]
-        classes[name] = {"init": init, "blocks": blocks}
+        classes[name] = {"init": init, "blocks": blocks, "dynamic": [i for i in range(len(blocks)) if rnd.random() < 0.3]}
         order.append(name)
 
     def scenario(self):
@@ -104,12 +104,18 @@ class Gen(object):
                 out.append(it[1])
             elif it[0] == "new":
                 out += self.tags_of_new(classes, it[1])
-        for b in c["blocks"]:
+        for b in ordered_blocks(c):
             out += self.tags(b)
         return out
 
 
 UNSAT_BLOCK = "[IBlock [IStmt; IStmt]]"
+
+
+def ordered_blocks(c):
+    """build_field_model elaborates the dynamic constraint blocks first, then the others, each group in name order"""
+    dyn = c.get("dynamic", [])
+    return [b for i, b in enumerate(c["blocks"]) if i in dyn] + [b for i, b in enumerate(c["blocks"]) if i not in dyn]
 
 
 def items_lit(items, classes):
@@ -123,7 +129,7 @@ def items_lit(items, classes):
             out.append("IBlock %s" % items_lit(it[2], classes))
         elif it[0] == "new":
             c = classes[it[1]]
-            out.append("INew %s %s" % (items_lit(c["init"], classes), clist([items_lit(b, classes) for b in c["blocks"]] + [UNSAT_BLOCK])))
+            out.append("INew %s %s" % (items_lit(c["init"], classes), clist([items_lit(b, classes) for b in ordered_blocks(c)] + [UNSAT_BLOCK])))
     return clist(out)
 
 
@@ -132,7 +138,7 @@ def call_lit(call, classes):
     u = "true" if call.get("unsat") else "false"
     if call["api"] == "new":
         c = classes[call["cls"]]
-        a = "ANew %s %s" % (items_lit(c["init"], classes), clist([items_lit(b, classes) for b in c["blocks"]] + [UNSAT_BLOCK]))
+        a = "ANew %s %s" % (items_lit(c["init"], classes), clist([items_lit(b, classes) for b in ordered_blocks(c)] + [UNSAT_BLOCK]))
     elif call["api"] == "randomize":
         a = "ARandomize %s %s %s" % (items_lit(call["pre"], classes), items_lit(call["post"], classes), u)
     elif call["api"] == "with":
